@@ -180,6 +180,22 @@ Theorem C08_recorded_costs_limit_patched :
 Proof. exact limit_fixed_records_tree_costs. Qed.
 Print Assumptions C08_recorded_costs_limit_patched.
 
+(* compressed objectives (HyperCompressedOptimizer): figures and score are the compressed
+   statistics of the tree the dict holds.  HYPOTHESIS, explicit in the typing: `cstats`,
+   `score_comp` (like `stats`, `score_basic`, `score_limit`) are fixed functions -- scoring
+   depends only on the tree and the objective's parameters (objective string, chi), never on
+   which contractions were scored earlier in the process.  The harness checks this hypothesis
+   on the real code every run: each recorded row is re-scored by a freshly constructed objective
+   with explicit chi = max_dim^2, across sequences of searches with different largest
+   dimensions, and a fixed probe tree is scored through the shared objective before and after
+   an unrelated search. *)
+Theorem C08_recorded_costs_compressed :
+  forall T stats post score_basic score_limit cstats score_comp score_custom finish em o b tr,
+  trial_fn T stats post score_basic score_limit cstats score_comp score_custom finish em ObjCompressed o b = Ok tr ->
+  tr = failed_trial \/ describes_compressed T cstats score_comp finish tr.
+Proof. exact compressed_records_tree_costs. Qed.
+Print Assumptions C08_recorded_costs_compressed.
+
 (* original_flops/write/size are those of the path finder's tree whatever ran afterwards *)
 Theorem C08_originals_are_base_costs : forall T stats post s ss t tr',
   updating s = true ->
